@@ -1,6 +1,7 @@
 """C13 — Dead-code elimination removes only unobservable code.
 
 Recipe: {"mod": <irgen recipe over effect kinds>, "entry": "dce" | "greedy" | "canonicalize"}
+   or   {"kind": "sem", "prog": <vt.progen program recipe>, "entry": "dce" | "greedy"}   (semantic sub-check)
 Oracle: an independent liveness over the recipe's op vocabulary (effect class by op name):
   removable-class ops: test.pureop (pure), test.op_with_memread (read only);
   never removable: test.op / unregistered (unknown effects), test.op_with_memwrite (write),
@@ -26,8 +27,16 @@ RULE = ("irgen modules over ops with declared effects (pure, read-only, write, u
         "(independent liveness by op class + block reachability); (2) after the dce pass no "
         "reference-dead op and no unreachable block remains; (3) surviving ops keep their operands "
         "(no erased value in use), module verifies, invariants hold. Non-trivial: the module has >=1 dead "
-        "op and >=1 effectful op with unused results.")
+        "op and >=1 effectful op with unused results. "
+        "Semantic sub-check (kind 'sem'): vt.progen executable func/arith/scf/cf programs with dead code, external "
+        "func.call / printf / memref.store / unregistered effect ops whose results are unused; the dce pass or the "
+        "greedy trivial-dead removal is applied to a clone and vt.refsem results AND the ordered effect log are "
+        "compared before/after on 4 input vectors (refsem.compare_results; POISON/UB/out-of-fuel inputs excluded); "
+        "non-trivial there: the pass removed >=1 op, the program has an effectful op without used results and >=1 "
+        "input was compared.")
 ASSUMPTIONS = ["effect class per op name in the reference table matches the ops' declared traits",
+               "semantic sub-check: vt.refsem implements the MLIR semantics of the generated ops; external calls, printf "
+               "and unregistered ops are observable effects",
                "pure/read-only ops are generated with only pure/read-only nested ops (a Pure op promises its regions are effect-free)"]
 
 REMOVABLE = {"test.pureop", "test.op_with_memread"}
@@ -188,8 +197,109 @@ def irgen_ctx():
     return _c["ctx"]
 
 
+# ---------------------------------------------------------------------------------------------
+# semantic sub-check: executable programs, refsem results + ordered effect log before/after
+# ---------------------------------------------------------------------------------------------
+
+SEM_EFFECT_OPS = {"func.call", "printf.print_format", "memref.store", "builtin.unregistered"}
+
+
+def run_sem(h, r):
+    from xdsl.context import Context
+    from xdsl.pattern_rewriter import GreedyRewritePatternApplier, PatternRewriteWalker
+    from vt import progen, refsem
+    if "selftest" not in _c:
+        refsem.selftest()
+        _c["selftest"] = True
+    rec = r["prog"]
+    entry = r["entry"]
+    if entry not in ("dce", "greedy"):
+        raise ValueError(f"unknown entry {entry!r}")
+    module = progen.build(rec)
+    fname, fr = progen.entry(rec)
+    vecs = progen.input_vectors(fr, 4, rec.get("inputs"), 64)
+    try:
+        before = [refsem.run_function(module, fname, v, index_bits=64, fuel=20000) for v in vecs]
+    except refsem.UnsupportedOp:
+        h.discard("sem_refsem_unsupported")
+        return
+    work = module.clone()
+    ops_before = list(work.walk())
+    has_effectful_unused = any(o.name in SEM_EFFECT_OPS and all(x.first_use is None for x in o.results)
+                               for o in ops_before)
+    crash = None
+    with quiet():
+        try:
+            if entry == "dce":
+                from xdsl.transforms.dead_code_elimination import DeadCodeElimination
+                DeadCodeElimination().apply(Context(), work)
+            else:
+                PatternRewriteWalker(GreedyRewritePatternApplier([], dce_enabled=True)).rewrite_module(work)
+        except Exception as e:      # reported below, never swallowed
+            crash = e
+    alive = {id(o) for o in work.walk()}
+    removed = sorted({(o.op_name.data if o.name == "builtin.unregistered" else o.name)
+                      for o in ops_before if id(o) not in alive})
+    rm = "-" if not removed else "+".join(removed) if len(removed) <= 3 else "many"
+    removed_effect = sorted(n for n in removed if n in SEM_EFFECT_OPS or n.startswith("unk."))
+    if crash is not None:
+        h.case(r, False, label="sem:" + entry)
+        h.mismatch({"check": "sem_pass_raises", "entry": entry, "exc": type(crash).__name__}, r,
+                   f"{entry} raised {crash!r:.300} on\n" + progen.render(module)[:2500])
+        return
+    try:
+        work.verify()
+    except Exception as e:
+        h.case(r, False, label="sem:" + entry)
+        h.mismatch({"check": "sem_verify_fails", "entry": entry, "removed": rm}, r,
+                   str(e)[-300:] + "\n" + progen.render(module)[:2500])
+        return
+    compared = 0
+    bad = None
+    if removed:
+        try:
+            after = [refsem.run_function(work, fname, v, index_bits=64, fuel=80000) for v in vecs]
+        except refsem.UnsupportedOp as e:
+            h.case(r, False, label="sem:" + entry)
+            h.mismatch({"check": "sem_not_executable", "entry": entry, "removed": rm}, r,
+                       f"output of {entry} is no longer executable: {e}\n" + progen.render(module)[:2500])
+            return
+        for i, (rb, ra) in enumerate(zip(before, after)):
+            verdict, why = refsem.compare_results(rb, ra)
+            if verdict == "excluded":
+                h.exclude("sem_poison_ub_or_fuel")
+                continue
+            compared += 1
+            if verdict == "differ" and bad is None:
+                bad = (i, why)
+    nt = bool(removed) and has_effectful_unused and compared > 0
+    want = nt and not h._shrinking and len(h.samples) < 6
+    h.case(r, nt, label="sem:" + entry,
+           sample={"entry": entry, "removed": removed, "ir": progen.render(module)[:1200]} if want else None)
+    if removed:
+        h.count("sem_removed_something")
+    if bad is not None:
+        i, why = bad
+        kind = "sem_effects_changed" if why.startswith("effect") else "sem_result_changed"
+        h.mismatch({"check": kind, "entry": entry, "removed": rm,
+                    "removed_effect_op": removed_effect[0] if removed_effect else "-"}, r,
+                   f"{entry} changed the behaviour on input {vecs[i]!r}: {why}\nremoved op kinds: {removed}\n"
+                   + progen.render(module)[:2500])
+
+
+def sem_recipes():
+    from vt import progen
+    progs = progen.program_recipes(effects=["call", "print", "memref"], unknown_ops=True, affine=False,
+                                   max_funcs=2, size=10, n_inputs=4, index_bits=64)
+    return st.fixed_dictionaries({"kind": st.just("sem"), "prog": progs,
+                                  "entry": st.sampled_from(["dce", "dce", "greedy"])})
+
+
 def replay(h, recipe):
-    run(h, recipe)
+    if isinstance(recipe, dict) and recipe.get("kind") == "sem":
+        run_sem(h, recipe)
+    else:
+        run(h, recipe)
 
 
 def checks(h):
@@ -198,3 +308,4 @@ def checks(h):
         "entry": st.sampled_from(["dce", "dce", "greedy", "canonicalize"]),
     })
     h.hyp("dce", strat, lambda r: run(h, r), h.scale(80, 4000), 1)
+    h.hyp("dce_semantic", sem_recipes(), lambda r: run_sem(h, r), h.scale(60, 1500), 2)
